@@ -79,28 +79,11 @@ static struct in_addr *ares_save_opt_servers(const ares_channel_t *channel,
   return out;
 }
 
-/* Save options from initialized channel */
-int ares_save_options(const ares_channel_t *channel,
-                      struct ares_options *options, int *optmask)
+static int ares_save_options_nolock(const ares_channel_t *channel,
+                                    struct ares_options  *options,
+                                    int                  *optmask)
 {
   size_t i;
-
-  /* NOTE: We can't zero the whole thing out, this is because the size of the
-   *       struct ares_options changes over time, so if someone compiled
-   *       with an older version, their struct size might be smaller and
-   *       we might overwrite their memory! So using the optmask is critical
-   *       here, as they could have only set options they knew about.
-   *
-   *       Unfortunately ares_destroy_options() doesn't take an optmask, so
-   *       there are a few pointers we *must* zero out otherwise we won't
-   *       know if they were allocated or not
-   */
-  options->servers         = NULL;
-  options->domains         = NULL;
-  options->sortlist        = NULL;
-  options->lookups         = NULL;
-  options->resolvconf_path = NULL;
-  options->hosts_path      = NULL;
 
   if (!ARES_CONFIG_CHECK(channel)) {
     return ARES_ENODATA;
@@ -236,6 +219,41 @@ int ares_save_options(const ares_channel_t *channel,
   *optmask = (int)channel->optmask;
 
   return ARES_SUCCESS;
+}
+
+/* Save options from initialized channel */
+int ares_save_options(const ares_channel_t *channel,
+                      struct ares_options *options, int *optmask)
+{
+  int rc;
+
+  /* NOTE: We can't zero the whole thing out, this is because the size of the
+   *       struct ares_options changes over time, so if someone compiled
+   *       with an older version, their struct size might be smaller and
+   *       we might overwrite their memory! So using the optmask is critical
+   *       here, as they could have only set options they knew about.
+   *
+   *       Unfortunately ares_destroy_options() doesn't take an optmask, so
+   *       there are a few pointers we *must* zero out otherwise we won't
+   *       know if they were allocated or not
+   */
+  options->servers         = NULL;
+  options->domains         = NULL;
+  options->sortlist        = NULL;
+  options->lookups         = NULL;
+  options->resolvconf_path = NULL;
+  options->hosts_path      = NULL;
+
+  if (channel == NULL) {
+    return ARES_ENODATA;
+  }
+
+  /* The configuration may be replaced at any time by a reinit running in
+   * another thread, hold the lock while reading it */
+  ares_channel_lock(channel);
+  rc = ares_save_options_nolock(channel, options, optmask);
+  ares_channel_unlock(channel);
+  return rc;
 }
 
 static ares_status_t ares_init_options_servers(ares_channel_t       *channel,
